@@ -409,6 +409,7 @@ structure JSt where
   pm : PureMon := {}
   tm : TextMon := {}
   lastObs : List (Nat × List OEntry) := []
+  freshObs : List (Nat × List OEntry) := []     -- the last `observe` of a handle, as long as nothing was called on it since
   lastSnap : List (Nat × String) := []
   trails : List (Nat × UInt64) := []    -- per handle: a hash of the calls that made it (lock-step pairs have equal trails)
   snapPairs : Nat := 0
@@ -579,12 +580,42 @@ def JSt.closeHist (j : JSt) (lastLine : Nat) : JSt :=
     let b := j.stats
     { j with hists := j.hists.push s!"HIST {j.histStart} {lastLine} {b.collections - a.collections} {b.readds - a.readds} {b.overwrites - a.overwrites} {b.nextIds - a.nextIds} {b.judgedCalls - a.judgedCalls}" }
 
+/-- C13 without a reference state, for a source the history monitors no longer judge (beyond the group limit, after a
+    non-tree merge): the statement of C13 read off the last full observation of the source — taken with nothing called on
+    it since — when everything reachable from `v` along accepted edges is present there and numbers at most 14 -/
+def sliceFree (j : JSt) (lineNo a v b : Nat) (rj : List (Nat × Nat × Label)) (obsLine : String) (m : HMon) : JSt :=
+  match j.freshObs.find? (·.1 = a) with
+  | none => j
+  | some (_, ents) =>
+    let present := ents.map OEntry.id
+    let edgesOf (x : Nat) : List (String × Nat) := match ents.find? (·.id = x) with | some e => e.edges | none => []
+    let accepted (x : Nat) (e : String × Nat) : Bool := match parseLabelTok e.1 with
+      | some l => !rj.contains (x, e.2, l)
+      | none => true
+    let step (acc : List Nat) : List Nat :=
+      acc.foldl (fun acc x => (edgesOf x).foldl (fun acc e => if accepted x e ∧ e.2 ∉ acc then acc ++ [e.2] else acc) acc) acc
+    let clo := (List.range (present.length + 1)).foldl (fun acc _ => step acc) [v]
+    let kept := sortNats clo
+    if v ∉ present ∨ ¬ kept.all (· ∈ present) ∨ kept.length > 14 then j
+    else
+      let o := parseObs obsLine
+      let srcE := kept.flatMap (fun x => (edgesOf x).map (fun e => (x, e.1, e.2)))
+      let spec : SliceSpec :=
+        { kept := kept, must := srcE.filter (fun (x, l, t) => t ∈ kept ∧ accepted x (l, t)), may := srcE }
+      let j := { j with slicesJudged := j.slicesJudged + 1, sliceSpecs := (b, spec) :: j.sliceSpecs.filter (·.1 ≠ b) }
+      let j := j.setMon b { n := m.n, cap := m.cap, judged := false }
+      if o.status ≠ "ok" then
+        j.reject "C13" lineNo s!"slice answered '{obsLine}'; in the source as last observed everything reachable from ν{v} is present: {showNats kept}"
+      else if o.keys ≠ kept then
+        j.reject "C13" lineNo s!"slice holds {showNats o.keys}, reachable along accepted edges (source as last observed) are {showNats kept}"
+      else j
+
 def judgeLine2 (j : JSt) (lineNo : Nat) (opLine obsLine : String) : JSt :=
   let j := { j with stats := { j.stats with calls := j.stats.calls + 1 } }
   match words opLine with
   | ["reset"] =>
     let j := j.closeHist (lineNo - 1)
-    { j with mons := #[], everAlive := [], lastObs := [], lastSnap := [], sliceSpecs := [], mergeSpecs := [], histStart := lineNo, histMark := j.stats,
+    { j with mons := #[], everAlive := [], lastObs := [], freshObs := [], lastSnap := [], sliceSpecs := [], mergeSpecs := [], histStart := lineNo, histMark := j.stats,
              stats := { j.stats with histories := j.stats.histories + 1 } }
   | ["new", h, n, c] =>
     match parseHandle h, n.toNat?, c.toNat? with
@@ -620,7 +651,7 @@ def judgeLine2 (j : JSt) (lineNo : Nat) (opLine obsLine : String) : JSt :=
       let j := { j with slices := j.slices + 1 }
       match j.getMon a with
       | some m =>
-        if ¬ m.judged then j
+        if ¬ m.judged then sliceFree j lineNo a v b rj obsLine m
         else
           let p : Nat → Nat → Label → Bool := fun x y l => !rj.contains (x, y, l)
           match refSliceDone m.r (m.cap + 1) v p with
@@ -946,8 +977,30 @@ def judgeLine1 (j : JSt) (lineNo : Nat) (opLine obsLine : String) : JSt :=
     else judgeLine2 j lineNo opLine obsLine
   | _ => judgeLine2 j lineNo opLine obsLine
 
+/-- the handle a line calls something on that may change it (everything but the read-only calls) -/
+def mutatedHandle (ws : List String) : Option Nat :=
+  match ws with
+  | ["new", h, _, _] => parseHandle h
+  | ["clone", _, b] => parseHandle b
+  | ["reload", _, b] => parseHandle b
+  | ["slice", _, _, b, _] => parseHandle b
+  | ["merge", a, _, _, _] => parseHandle a
+  | ["script", a, _] => parseHandle a
+  | cmd :: h :: _ => if cmd ∈ ["add", "bind", "put", "data", "nextid"] then parseHandle h else none
+  | _ => none
+
 def judgeLine (j : JSt) (lineNo : Nat) (opLine obsLine : String) : JSt :=
-  bumpTrail (judgeLine1 j lineNo opLine obsLine) opLine
+  let ws := words opLine
+  let j := match mutatedHandle ws with
+    | some h => { j with freshObs := j.freshObs.filter (·.1 ≠ h) }
+    | none => j
+  let j := bumpTrail (judgeLine1 j lineNo opLine obsLine) opLine
+  match ws with
+  | ["observe", a] =>
+    match parseHandle a, parseObserve obsLine with
+    | some h, some ents => { j with freshObs := (h, ents) :: j.freshObs.filter (·.1 ≠ h) }
+    | _, _ => j
+  | _ => j
 
 def PureMon.json (p : PureMon) : String :=
   "{" ++ s!"\"hex_lines\":{p.hexLines},\"concat_lines\":{p.concatLines},\"concat_law_failures\":{p.concatDefect},\"label_lines\":{p.labelLines},\"legal_texts\":{p.legalTexts},\"distinct_labels\":{p.seen.length},\"panics_agreed_with_slice\":{p.panicsAgreed}" ++ "}"
